@@ -493,6 +493,31 @@ pub fn gen_file(dna: &mut Dna) -> FileCase {
 
 /// `small`: few segments, embedded plaintexts just above the 1024 byte threshold (cheap containers)
 pub fn gen_file_opts(dna: &mut Dna, small: bool) -> FileCase {
+    if dna.chance(if small { 1 } else { 2 }) && dna.chance(50) {
+        // a stream that expands enormously (megabytes of one byte: better than 1000:1), wrapped
+        // as zlib or gzip, between a little junk
+        let n = dna.range(2 << 20, 5 << 20);
+        let b = dna.u8();
+        let plain = vec![b; n];
+        let stream = crate::gen_comp::zlib_deflate_raw(&plain, &crate::gen_comp::ZCfg::simple(dna.range(1, 9) as i32)).unwrap();
+        let mut out = junk(dna, true, 40);
+        let mut m = Mix::new(dna.u64());
+        let w = out.len();
+        let (s, l) = if dna.bool() {
+            wrap_zlib(&mut out, [0x78, 0x9c], &stream, &plain)
+        } else {
+            let o = gen_gzip_opts(dna);
+            wrap_gzip(&mut out, &o, &stream, &plain, &mut m)
+        };
+        out.extend(junk(dna, true, 40));
+        return FileCase {
+            desc: format!("huge run: {} bytes of {:02x} in {} compressed bytes", n, b, stream.len()),
+            bytes: out,
+            labels: vec!["file:huge-run-stream".into(), "file:intact".into(), "wrapper:zlib-or-gzip".into()],
+            embedded: vec![Embedded { wrapper: "zlib", variant: "huge-run".into(), wrapper_start: w, stream_start: s, stream_len: l, plain, stream }],
+            mutated: false,
+        };
+    }
     if !small && dna.chance(3) {
         // large file without any embedded stream, mostly incompressible (zstd stores it in raw
         // blocks): sizes around and beyond 512 KiB
